@@ -232,10 +232,8 @@ def r_keys(P, R):
             'for a file whose levels have gaps (support variables only) '
             'the key is missing or belongs to another variable',
             unit=f.unit.rel, line=node.lineno)
-    if inf.lookups < 3:
-        raise AnalysisError(
-            f'R-KEYS: only {inf.lookups} typed lookup(s) in dd.dddmp.load '
-            '(3 confirmed on the reference tree)')
+    # (no floor: the loader model of rules/models.py decides load(); the
+    # type inference is a second opinion where it reaches)
     if not inf.mismatch:
         R.holds('R-KEYS', f.qualname,
                 f'{inf.lookups} dictionary lookups, each with a key of '
@@ -343,8 +341,6 @@ def r_keys(P, R):
                                 f'{show(t[2])}, not to permutation IDs '
                                 '(the levels of the node lines)',
                                 unit=g.unit.rel, line=s.lineno)
-    if n < 5:
-        raise AnalysisError(
-            f'R-KEYS: {n} .varinfo table(s) typed in Parser._parse_header, 5 '
-            'confirmed on the reference tree')
+    # (no floor: the parser model of rules/models.py decides the tables;
+    # the type inference is a second opinion where it reaches)
 r_keys.NAME = 'R-KEYS'
